@@ -85,7 +85,9 @@ def build_circuit(spec):
             n = Node(c, name, st[2]); f = Node(c, name); Line(c, (n, 0), f); sig[name] = f; cell[name] = n
     for st in spec['steps']:
         t, name = st[0], st[1]
-        if t == 'out':
+        if t == 'outq':                    # bench style `OUTPUT(q)  q = DFF(..)`: the port IS the output fork of the flip-flop `q`
+            io[name] = sig[name]
+        elif t == 'out':
             Line(c, sig[st[2]], (cell[name], 0))
         elif t in ('ff', 'latch'):
             Line(c, sig[st[3]], (cell[name], 0))
@@ -149,6 +151,20 @@ def gen_case(rng, malformed=False):
             seen.add(x); keep.append(x)
         ch['gaps'] = ch['gaps'][:len(keep) + 1]
         ch['cells'] = keep
+    # audit finding 2 (fix D36): bench-style circuits in which an output port IS the output fork of a flip-flop — port and state
+    # element then have the SAME NAME in s_nodes (scan-out port named like the last cell of its chain; plain outputs named like any
+    # flip-flop)
+    style = rng.choice(['v', 'v', 'b'])
+    portq = []
+    if style == 'b' and rng.random() < 0.6:
+        ffn = [n for n, _ in ffs]
+        for ci, ch in enumerate(chains):
+            if ch['cells'] and ch['cells'][-1] in ffn and ch['cells'][-1] not in portq and rng.random() < 0.6:
+                sos[ci] = ch['so'] = ch['cells'][-1]; portq.append(sos[ci])
+        for k in range(n_out):
+            cand = [n for n in ffn if n not in portq]
+            if cand and rng.random() < 0.35:
+                outs[k] = rng.choice(cand); portq.append(outs[k])
     # netlist
     data_sigs = ins + [n for n, _ in ffs] + [n for n, _ in latches]
     gates = []
@@ -158,15 +174,15 @@ def gen_case(rng, malformed=False):
         gates.append((f'g{g}', fn, srcs))
     all_sigs = data_sigs + [x[0] for x in gates]
     steps = [['in', n] for n in ins + sis + ([clk] if clk else [])]
-    steps += [['out', n, rng.choice(all_sigs)] for n in outs]
-    steps += [['out', ch['so'], ch['cells'][-1]] for ch in chains]
+    steps += [['outq', n] if n in portq else ['out', n, rng.choice(all_sigs)] for n in outs]
+    steps += [['outq', ch['so']] if ch['so'] in portq else ['out', ch['so'], ch['cells'][-1]] for ch in chains]
     steps += [['ff', n, k, rng.choice(all_sigs), clk if (clk and rng.random() < 0.5) else None] for n, k in ffs]
     steps += [['latch', n, k, rng.choice(all_sigs), clk if (clk and rng.random() < 0.5) else None] for n, k in latches]
     steps += [['gate', n, rng.choice(GATES[fn]), fn, srcs] for n, fn, srcs in gates]
     rng.shuffle(steps)                                  # node creation order = circuit.nodes order
     io_order = ins + sis + ([clk] if clk else []) + outs + sos
     if rng.random() < 0.6: rng.shuffle(io_order)
-    spec = {'style': rng.choice(['v', 'v', 'b']), 'steps': steps, 'gates': [list(g) for g in gates], 'io_order': io_order}
+    spec = {'style': style, 'steps': steps, 'gates': [list(g) for g in gates], 'io_order': io_order}
     # signal groups
     pi_all = ins + sis + ([clk] if clk else [])
     po_all = outs + sos
@@ -310,16 +326,20 @@ UNK = 'u'   # "no expectation": UNKNOWN or UNASSIGNED
 def expected(case, c):
     truth, spec = case['truth'], case['spec']
     names = [n.name for n in c.s_nodes]
-    row = {n: i for i, n in enumerate(names)}
+    # name -> row BY ROLE (audit finding 2): ports among io_nodes, scan cells among the state elements; a bench-style output port may
+    # carry the name of the flip-flop whose output fork it is
+    n_io = len(c.io_nodes)
+    prow = {n: i for i, n in enumerate(names[:n_io])}
+    crow = {n: i + n_io for i, n in enumerate(names[n_io:])}
     pats = truth['pats']
     n = len(names)
     T = [[2] * n for _ in pats]; R = [[2] * n for _ in pats]; L = [[UNK] * n for _ in pats]
     state = [st[1] for st in spec['steps'] if st[0] in ('ff', 'latch')]
     for i, pt in enumerate(pats):
-        for x, ch in pt['load'].items(): T[i][row[x]] = CODE[ch]
-        for x in truth['pi_grp']: T[i][row[x]] = CODE[pt['capture'][x]]
-        for x in truth['po_grp']: R[i][row[x]] = CODE[pt['po'][x]]
-        for x, ch in pt['unload'].items(): R[i][row[x]] = CODE[ch] if ch in 'LH' else UNK
+        for x, ch in pt['load'].items(): T[i][crow[x]] = CODE[ch]
+        for x in truth['pi_grp']: T[i][prow[x]] = CODE[pt['capture'][x]]
+        for x in truth['po_grp']: R[i][prow[x]] = CODE[pt['po'][x]]
+        for x, ch in pt['unload'].items(): R[i][crow[x]] = CODE[ch] if ch in 'LH' else UNK
         # launch-on-capture
         first = pt['launch'] if pt['launch'] is not None else pt['capture']
         init = {x: 2 for x in names}
@@ -328,16 +348,14 @@ def expected(case, c):
         lpulse = pt['launch'] is not None and 'P' in pt['launch'].values() and 'P' in pt['capture'].values()
         cpulse = 'P' in pt['capture'].values()
         nxt = next_state(spec, init)
-        for x in names:
+        for x, r in [(x, crow[x]) for x in pt['load']] + [(x, prow[x]) for x in truth['pi_grp']]:
             if x in pt['load']:
                 fin = nxt[x] if lpulse else init[x]
-            elif x in truth['pi_grp']:
-                fin = CODE[pt['capture'][x]] if cpulse else 2
             else:
-                continue
+                fin = CODE[pt['capture'][x]] if cpulse else 2
             a, b = init[x], fin
             a = 0 if a == 4 else a; b = 0 if b == 4 else b
-            L[i][row[x]] = ((1 if b == 3 else 0) | (2 if a == 3 else 0) | (4 if a != b else 0)) if known(a) and known(b) else UNK
+            L[i][r] = ((1 if b == 3 else 0) | (2 if a == 3 else 0) | (4 if a != b else 0)) if known(a) and known(b) else UNK
     return names, T, R, L
 
 
@@ -509,7 +527,8 @@ def model_all(c, s, res, mode, sim=False):
 def classify(c, s, res):
     """label of a violation: which documented departure of stil.py (if any) reproduces the observed result"""
     try:
-        for mode, label in (('s1', 'inversion-vector'), ('uf', 'interface-order'), ('u1', 'interface-order')):
+        for mode, label in (('sfl', 'name-clash'), ('s1', 'inversion-vector'), ('s1l', 'inversion-vector'), ('uf', 'interface-order'),
+                            ('ufl', 'interface-order'), ('u1', 'interface-order'), ('u1l', 'interface-order')):
             m = model_all(c, s, res, mode)
             if all(same(res[fn], m[fn]) for fn in ('tests', 'responses', 'loc')):
                 return label, mode
@@ -564,6 +583,8 @@ def features(case):
         tags.append('pat:' + ('static' if pt['launch'] is None else 'launch') + ('+lp' if lp else '') + ('+cp' if cp else ''))
         if pt['discarded_load']: tags.append('pat:discarded-load')
     if tr['pi_grp'] != sorted(tr['pi_grp']): tags.append('groups:shuffled')
+    nq = sum(1 for st in spec['steps'] if st[0] == 'outq')
+    if nq: tags.append('name-clash:port=flip-flop' + (':scan-out' if any(ch['so'] in ch['cells'] for ch in tr['chains']) else ''))
     if case.get('malformed'): tags.append('malformed')
     return tags
 
@@ -587,6 +608,16 @@ def corr_case(ck, case, viol):
     # (2) the three functions, property mode
     m = model_all(c, s, res, 'sf', sim=True)
     bad = [fn for fn in ('tests', 'responses', 'loc') + (('locinit',) if 'locinit' in res else ()) if not same(res[fn], m[fn])]
+    # hypotheses `hnd` of C18.load_pos / pi_po_map / unload_pos / po_map (target rows pairwise different) and "interface names
+    # pairwise different" (C18.rows_unique_names), evaluated by the driver on the real parse result
+    try:
+        hnd = common.run_driver([request('hnd', 'sf', c, s)])[0]
+    except Exception as ex:
+        hnd = f'{type(ex).__name__}'
+    ck.hist[f'hyp:hnd:{hnd}'] += 1
+    if not case.get('malformed') and 'load=true unload=true' not in hnd:
+        # a well-formed generated case puts every cell in at most one chain position and every port once into a group: inside the domain
+        ck.broken_tie('hypothesis hnd of the positional theorems on a well-formed case', hnd, inp=case)
     if not bad:
         ck.hist['corr:model=real'] += 1
         e2e_corr(ck, case, c, s, res, m)
@@ -680,6 +711,8 @@ def sweep(ck, n, lead=()):
             label, mode = classify(c, s, res)
             what = {'inversion-vector': 'scan-chain inversion markers are not applied per cell (only the first flag of the inversion vector is used)',
                     'interface-order': 'rows do not follow circuit.s_nodes (case-sensitive DFF test, latches missing) or a chained cell is not found',
+                    'name-clash': 'a port and a flip-flop share a name (bench-style OUTPUT(q) q=DFF(..)): the _po character lands on the '
+                                  'flip-flop row, the port row is never assigned (one name dictionary over s_nodes, last position wins)',
                     'mapping': 'STIL data does not land where chain order / signal groups dictate'}[label]
             ck.violation(label, what, case, obs, exp)
         try:
